@@ -1,5 +1,5 @@
 (* JudgeSoundC06P.v — the executable property of Check/C06_check.v (c06_ok / c06_ok1_from = c06_core + log_ok + kind_ok +
-   give-up clause + liveness clause; attr_ok; hist_ok) IS the C06 property:
+   give-up clauses (phase A, phase B) + liveness clause; attr_ok; hist_ok) IS the C06 property:
    (b) an implementation output that passes it satisfies the conclusions of C06_sig_threshold (with the signatures
        STRICTLY ascending by signer address) / C06_obs_threshold / C06_one_observation_per_node / C06_total_no_panic
        read on the script of the case, C06_requests_wellformed read on the Send log, C06_failure_origin read on the
@@ -128,19 +128,45 @@ Proof.
 Qed.
 
 
+(* the same for phase B: what a give-up with ErrInsufficientSignatureResponses that passes says *)
+Definition log_sig_asked (log : list send_t) (n : node) : Prop :=
+  exists s, In s log /\ snd_kind s = 1%N /\ snd_node s = n.
+Lemma asked_sig_in log n : In n (asked_sig log) <-> log_sig_asked log n.
+Proof.
+  unfold asked_sig, log_sig_asked. rewrite in_map_iff. split.
+  - intros (s & E & H). apply filter_In in H as [H K]. exists s. unfold is_k1 in K. apply N.eqb_eq in K. auto.
+  - intros (s & H & K & E). exists s. split; [exact E|]. apply filter_In. split; [exact H|].
+    unfold is_k1. now rewrite K.
+Qed.
+Lemma unasked_signers_in cfg log n :
+  In n (unasked_signers cfg log) <->
+  In n (signer_nodes cfg) /\ is_home cfg n = true /\ ~ log_sig_asked log n.
+Proof.
+  unfold unasked_signers. rewrite filter_In, andb_true_iff, negb_true_iff, memN_false, asked_sig_in. tauto.
+Qed.
+
+Definition giveupB_P (cfg : config) (o : out1) : Prop :=
+  o_kind o = 6%N -> (zlen (dedupN (unasked_signers cfg (o_log o))) < c_remoteF cfg + 1)%Z.
+Lemma giveupB_ok_sound cfg o : giveupB_ok cfg o = true -> giveupB_P cfg o.
+Proof.
+  unfold giveupB_ok, giveupB_P. intros H K. rewrite K in H. change (N.eqb 6 6) with true in H. cbv iota in H.
+  apply negb_true_iff in H. unfold gte_f_plus_one in H. now apply Z.leb_gt in H.
+Qed.
+
+
 (* ---------------- (b) for the whole executable property ---------------- *)
 Definition c06_full_P (off : nat) (i : c06_in) (o : out1) : Prop :=
   c06_P i o /\ log_P (i_cfg i) (o_log o) (o_attr o) /\ kind_P (i_cfg i) (i_items i) o /\
   (* C06_liveness: if its hypotheses hold of the case (for every schedule and event list the model allows), success *)
   ((exists us rho, live_facts off i us rho) -> live_test_from off i = true -> o_kind o = 0%N) /\
-  giveup_P (i_cfg i) (i_items i) o.
+  giveup_P (i_cfg i) (i_items i) o /\ giveupB_P (i_cfg i) o.
 
 Theorem c06_ok1_from_sound off i o : c06_ok1_from off i o = true -> c06_full_P off i o.
 Proof.
-  unfold c06_ok1_from. intros H. apply andb_true_iff in H as [H H4]. apply andb_true_iff in H as [H HG].
-  apply andb_true_iff in H as [H H3].
+  unfold c06_ok1_from. intros H. apply andb_true_iff in H as [H H4]. apply andb_true_iff in H as [H HGB].
+  apply andb_true_iff in H as [H HG]. apply andb_true_iff in H as [H H3].
   apply andb_true_iff in H as [H1 H2]. split; [now apply c06_core_sound|]. split; [now apply log_ok_sound|].
-  split; [now apply kind_ok_sound|]. split; [|now apply giveup_ok_sound].
+  split; [now apply kind_ok_sound|]. split; [|split; [now apply giveup_ok_sound|now apply giveupB_ok_sound]].
   intros _ L. destruct (N.eqb_spec (o_kind o) 0) as [E|N0]; [exact E|].
   rewrite L in H4. discriminate.
 Qed.
@@ -152,7 +178,9 @@ Proof.
 Qed.
 (* the give-up clause in one line *)
 Theorem c06_ok1_from_giveup off i o : c06_ok1_from off i o = true -> giveup_P (i_cfg i) (i_items i) o.
-Proof. intros H. now destruct (c06_ok1_from_sound off i o H) as (_ & _ & _ & _ & Hg). Qed.
+Proof. intros H. now destruct (c06_ok1_from_sound off i o H) as (_ & _ & _ & _ & Hg & _). Qed.
+Theorem c06_ok1_from_giveupB off i o : c06_ok1_from off i o = true -> giveupB_P (i_cfg i) o.
+Proof. intros H. now destruct (c06_ok1_from_sound off i o H) as (_ & _ & _ & _ & _ & Hg). Qed.
 
 Theorem c06_ok_from_sound off i o : c06_ok_from off i o = true -> exists x, o = [x] /\ c06_full_P off i x.
 Proof.
@@ -282,12 +310,35 @@ Proof.
   apply unasked_in in Hn as [Hn Hna]. apply Hna. cbn [out_of o_log]. apply obs_asked_log. now apply A.
 Qed.
 
+(* phase B: the model reports ErrInsufficientSignatureResponses only after it has asked every signer RMNHome knows *)
+Lemma sig_asked_log l n : sig_asked l n -> log_sig_asked (map send_of l) n.
+Proof. intros (r & H & K & E). exists (send_of r). split; [now apply in_map|]. auto. Qed.
+
+Theorem model_outcome_giveupB off i x :
+  cfg_wf (i_cfg i) -> In x (c06_model_from off i) -> giveupB_ok (i_cfg i) x = true.
+Proof.
+  intros WF Hx. destruct (model_outcome_reach off i x WF Hx) as (order1 & ro & g & acc & _ & _ & _ & -> & K).
+  set (sc := sched_of off i order1 ro) in *. destruct K as ((evs & Er & F) & _).
+  unfold giveupB_ok. destruct (N.eqb_spec (o_kind (out_of g acc)) 6) as [K6|]; [|reflexivity].
+  assert (Hg : exists l, g = GFinal (Failure FInsufSigs) l).
+  { destruct g as [us' s|s|[sigs rep|f|] l]; cbn in K6; try discriminate. destruct f; cbn in K6; try discriminate. eauto. }
+  destruct Hg as [l ->]. symmetry in Er.
+  destruct (giveupB_only_after_asking_all edv_c vrs_c _ sc evs l Er) as [HF A].
+  replace (unasked_signers _ _) with (@nil node).
+  - apply negb_true_iff. unfold gte_f_plus_one. apply Z.leb_gt. cbn. lia.
+  - symmetry. destruct (unasked_signers _ _) as [|n r] eqn:Eu; [reflexivity|]. exfalso.
+    assert (Hn : In n (unasked_signers (i_cfg i) (o_log (out_of (GFinal (Failure FInsufSigs) l) acc))))
+      by (rewrite Eu; now left).
+    apply unasked_signers_in in Hn as (Hn & Hh & Hna). apply Hna. cbn [out_of o_log]. apply sig_asked_log. now apply A.
+Qed.
+
 (* (a) for one outcome *)
 Theorem c06_model_outcome_passes off i x :
   cfg_wf (i_cfg i) -> In x (c06_model_from off i) -> o_kind x <> 10%N -> c06_ok1_from off i x = true.
 Proof.
   intros WF Hx Hk. unfold c06_ok1_from. rewrite (c06_model_outcome_core off i x WF Hx Hk).
-  destruct (model_outcome_log_kind off i x WF Hx Hk) as [-> ->]. rewrite (model_outcome_giveup off i x WF Hx). cbn [andb].
+  destruct (model_outcome_log_kind off i x WF Hx Hk) as [-> ->]. rewrite (model_outcome_giveup off i x WF Hx).
+  rewrite (model_outcome_giveupB off i x WF Hx). cbn [andb].
   destruct (N.eqb_spec (o_kind x) 0) as [E|N0]; [reflexivity|].
   destruct (live_test_from off i) eqn:L; [|reflexivity]. exfalso. apply N0. now apply (live_test_success off i x WF L).
 Qed.
@@ -346,7 +397,7 @@ Proof. unfold c06_ok, c06_ok_from. destruct o as [|x [|y o]]; try discriminate. 
 Lemma c06_ok1_from_core off i o : c06_ok1_from off i o = true -> c06_core i o = true.
 Proof.
   unfold c06_ok1_from. intros H. apply andb_true_iff in H as [H _]. apply andb_true_iff in H as [H _].
-  apply andb_true_iff in H as [H _]. now apply andb_true_iff in H as [H _].
+  apply andb_true_iff in H as [H _]. apply andb_true_iff in H as [H _]. now apply andb_true_iff in H as [H _].
 Qed.
 Theorem c06_sigs_ordered i o :
   c06_ok i o = true ->
@@ -409,6 +460,43 @@ Module ExG.
     - destruct Hu as [<-|[]]. vm_compute in Hz. discriminate.
   Qed.
 End ExG.
+
+Theorem c06_giveupB_sound i o :
+  c06_ok i o = true -> exists x, o = [x] /\ giveupB_P (i_cfg i) x.
+Proof.
+  intros H. destruct (c06_ok_single i o H) as (x & E & H1). exists x. split; [exact E|].
+  exact (c06_ok1_from_giveupB 0 i x H1).
+Qed.
+Module ExGB.
+  Import Witness.
+  (* Witness.cfg with F_remote = 0: signers 1, 2, 3, the first signature request goes to signer 1 alone *)
+  Definition cfg0 : config :=
+    mkConfig (c_nodes cfg) (c_homeF cfg) (c_dest_sel cfg) (c_dest_off cfg) (c_dest_known cfg) (c_digest cfg)
+             (c_reqs cfg) (c_signers cfg) 0%Z false false.
+  Definition attr2 : list (node * list (chain * root)) := [(1, [(5, 105)]); (2, [(5, 105)])]%N.
+  (* early: signer 1 answers with a bad signature and the output gives up at once - signers 2 and 3 were never asked,
+     either of them alone would have supplied the F_remote+1 = 1 signature: rejected *)
+  Definition early_out : out1 :=
+    mkOut 6 [] [] [(0, 1, 1, true, [5]); (0, 2, 2, true, [5]); (1, 1, 3, true, [])]%N attr2 true.
+  (* late: the bad signature resets the timer, it fires, 2 and 3 are asked and answer badly too: accepted, and it is
+     what the model does *)
+  Definition items_late : list item :=
+    [IResp 1 (BMsg 1 (obs_of 21 105)); IResp 2 (BMsg 2 (obs_of 22 105)); IResp 1 (BMsg 3 (sig_of 9901));
+     IResp 2 (BMsg 4 (sig_of 9902)); IResp 3 (BMsg 5 (sig_of 9903))]%N.
+  Definition inp_late : c06_in := mkIn cfg0 [1; 2]%N [] [1]%N [2; 3]%N [] items_late.
+  Definition late_out : out1 :=
+    mkOut 6 [] [] [(0, 1, 1, true, [5]); (0, 2, 2, true, [5]); (1, 1, 3, true, []); (1, 2, 4, true, []);
+                   (1, 3, 5, true, [])]%N attr2 true.
+
+  Example giveupB_examples :
+    (giveupB_ok cfg0 early_out = false /\ ~ giveupB_P cfg0 early_out /\
+     unasked_signers cfg0 (o_log early_out) = [2; 3]%N) /\
+    (giveupB_ok cfg0 late_out = true /\ c06_oeqb (c06_model inp_late) [late_out] = true).
+  Proof.
+    split; [split; [vm_compute; reflexivity|split; [|vm_compute; reflexivity]]|split; vm_compute; reflexivity].
+    intros H. specialize (H eq_refl). vm_compute in H. discriminate.
+  Qed.
+End ExGB.
 
 (* ---------------- non-vacuity, and the defect of the executable property as it was before ---------------- *)
 Module Ex.
